@@ -668,3 +668,22 @@ RSL = "refactors/scopelist/patch.diff"
 mutant("rsl-empty-scope-not-pushed",
        [(SC, "        ScopeStack(Some(Arc::new(ScopeNode{", "        if scope.is_empty() && self.0.is_some() {\n            return self.clone();\n        }\n        ScopeStack(Some(Arc::new(ScopeNode{")],
        [("C04", "R04.4")], base=RSL, note="linked-list scope chain + an empty block scope is not pushed")
+
+ROT = "refactors/optable/patch.diff"
+mutant("rot-table-rem-is-checked-rem",
+       [(E, "        BinaryOp::Mod => Some(checked_exact_rem),", "        BinaryOp::Mod => Some(i64::checked_rem),")],
+       [("C06", "R06.1")], base=ROT, note="table-driven operators + `%` mapped to checked_rem (MIN % -1 reported as overflow)")
+mutant("rot-table-div-wrapping",
+       [(E, "        BinaryOp::Div => Some(i64::checked_div),", "        BinaryOp::Div => Some(|a: i64, b: i64| Some(a.wrapping_div(b))),")],
+       [("C06", "R06.2")], base=ROT, note="table-driven operators + wrapping division closure in the table")
+mutant("rot-apply-swapped",
+       [(E, "        return f(*a, *b).map(Value::Int);", "        return f(*b, *a).map(Value::Int);")],
+       [("C06", "R06.1")], base=ROT, note="table-driven operators + function value applied to (rhs, lhs)")
+mutant("rot-cmp-table-ge-for-gt",
+       [(E, "        BinaryOp::Gt => Some(i64::gt),", "        BinaryOp::Gt => Some(i64::ge),")],
+       [("C06", "R06.4")], base=ROT, note="table-driven comparisons + `>` mapped to `>=`")
+
+mutant("c06-mod-checked-rem",
+       [(E, "                            if *b == 0 {\n                                Err(new_int_overflow(a, b))\n                            } else {\n                                // `wrapping_rem` only differs from `%` for\n                                // `i64::MIN % -1`, where it returns the\n                                // exact result (`0`) instead of panicking.\n                                Ok(Value::Int(a.wrapping_rem(*b)))\n                            }",
+            "                            if let Some(v) = a.checked_rem(*b) {\n                                Ok(Value::Int(v))\n                            } else {\n                                Err(new_int_overflow(a, b))\n                            }")],
+       [("C06", "R06.1")], note="`%` by checked_rem: i64::MIN % -1 (exact result 0) reported as overflow")
